@@ -6,7 +6,7 @@ git -C /repo worktree add --detach -f $W HEAD >/dev/null 2>&1
 trap "git -C /repo worktree remove --force $W >/dev/null 2>&1; rm -rf $W" EXIT
 case "$1" in
  sed:*) IFS=: read -r _ f e <<< "$1"; sed -i "$e" $W/$f; git -C $W diff --stat | tail -1;;
- *) git -C $W apply "$1";;
+ *) git -C $W apply "$(realpath "$1")";;
 esac
 shift
 for p in "$@"; do
